@@ -60,10 +60,13 @@ def generate(run_seed, tier):
     sk_f = formats.sk_formats(mc)
     vk_f = formats.vk_formats(mc)
     for _ in range(r.randrange(2, 8)):
+        # third field: restart (adopt the reloaded key) or keep using the
+        # same live object for the next serialisation
+        restart = r.random() < 0.65
         if r.random() < 0.55:
-            chain.append(["sk", r.choice(sk_f)])
+            chain.append(["sk", r.choice(sk_f), restart])
         else:
-            chain.append(["vk", r.choice(vk_f)])
+            chain.append(["vk", r.choice(vk_f), restart])
     if r.random() < 0.5:
         chain.append(["model_sk", r.choice([f for f in sk_f if f != "pickle"])])
     if r.random() < 0.5:
@@ -111,7 +114,9 @@ def execute(prog):
             ref_sig = bytes(sk0.sign_deterministic(b"c09", hashfunc=hf))
             sk = sk0
             vk = sk0.verifying_key
-            for gen, (kind, fmt) in enumerate(prog["chain"]):
+            for gen, ent in enumerate(prog["chain"]):
+                kind, fmt = ent[0], ent[1]
+                restart = ent[2] if len(ent) > 2 else True
                 out["ops"] += 1
                 where = "%s:%s" % (kind, fmt)
                 try:
@@ -206,9 +211,10 @@ def execute(prog):
                     fail("roundtrip", where + "-verify",
                          "reloaded key does not verify the original's "
                          "signature: %r" % (okv,))
-                if nsk is not None:
-                    sk = nsk
-                vk = nvk
+                if restart:
+                    if nsk is not None:
+                        sk = nsk
+                    vk = nvk
         except core.Violation as v:
             out["violation"] = v.v
     out["nontrivial"] = len(prog["chain"]) >= 2
